@@ -276,6 +276,9 @@ Lemma pres_check_inserted_packet : forall R p, okrel0 R -> Pres R (check_inserte
 Proof. intros R p HR. unfold check_inserted_packet. pres. Qed.
 #[export] Hint Resolve pres_check_inserted_packet : pres.
 
+Lemma pres_catch_abandoned : forall R (m : D unit), okrel0 R -> Pres R m -> Pres R (catch_abandoned m).
+Proof. intros R m HR Hm. unfold catch_abandoned. pres. Qed.
+
 Lemma pres_step_is : forall R v, okrel0 R -> Pres R (step_is v).
 Proof. intros R v HR. unfold step_is. pres. Qed.
 #[export] Hint Resolve pres_step_is : pres.
@@ -927,15 +930,18 @@ Proof.
   - pose proof pres_handle_fd_pdu. pose proof pres_handle_transfer_completion.
     pose proof (pres_handle_waiting_for_missing_metadata pkt Hok).
     assert (Pres (Step P) (handle_waiting_for_finished_ack
-              (s <- get ;; when (d_state s =? ST_BUSY) (non_idle_fsm k None)) pkt)).
-    { apply pres_handle_waiting_for_finished_ack. pose proof (IH None I). pres. }
+              (catch_abandoned (s <- get ;; when (d_state s =? ST_BUSY) (non_idle_fsm k None))) pkt)).
+    { apply pres_handle_waiting_for_finished_ack. apply pres_catch_abandoned; [ok0|].
+      pose proof (IH None I). pres. }
     cbn [non_idle_fsm]. pres.
 Qed.
 
 Lemma pres_state_machine : forall pkt, PktOk pkt -> Pres (Step P) (state_machine pkt).
 Proof.
   intros pkt Hok. unfold state_machine.
-  pose proof (pres_idle_fsm pkt Hok). pose proof (pres_non_idle_fsm 3 pkt Hok). pres.
+  pose proof (pres_idle_fsm pkt Hok). pose proof (pres_non_idle_fsm 3 pkt Hok).
+  apply pres_bind; [ok0 | solve [pres] | intros _].
+  apply pres_catch_abandoned; [ok0|]. pres.
 Qed.
 
 End Frame.
